@@ -104,6 +104,7 @@ func c17r8(c *Ctx) {
 		})
 		c.check(okDef && okName, R, g.Key+": FormValue(name), default when absent", g.Pos(), "n = ndefault; Atoi(FormValue(name)) when present", "the form helper does not read the named parameter or does not fall back to the given default")
 	}
+	c17r8b(c)
 }
 
 // c15r11: the served-bucket vector of this server is exactly the set the route
